@@ -251,7 +251,6 @@ class Convert(Contract):
     trusted = True
     inv = ("I_D", "I_P", "I_U")
     modifies = _UnitBin.modifies + ("new:Quantity",)
-    may_raise = ("ConversionNotFound",)
     ret = T_QTY
 
     def requires(self, c, a):
@@ -259,7 +258,8 @@ class Convert(Contract):
         yield "wf-unit", wf_unit(c, a.other_unit)
 
     def raises(self, c, a):
-        yield "ConversionNotFound", c.f(qunit(c, a.quantity), "dimension") != c.f(a.other_unit, "dimension"), "different-dimension"
+        yield "ConversionNotFound", z3.Or(c.f(qunit(c, a.quantity), "dimension") != c.f(a.other_unit, "dimension"),
+                                          noconv(c.f(qunit(c, a.quantity), "factors"), c.f(a.other_unit, "factors"))), "different-dimension-or-no-path"
 
     def ensures(self, c, a, r):
         o = c.old
@@ -285,7 +285,8 @@ class QInUnit(Convert):
         yield "wf-unit", wf_unit(c, a.other)
 
     def raises(self, c, a):
-        yield "ConversionNotFound", c.f(qunit(c, a.self), "dimension") != c.f(a.other, "dimension"), "different-dimension"
+        yield "ConversionNotFound", z3.Or(c.f(qunit(c, a.self), "dimension") != c.f(a.other, "dimension"),
+                                          noconv(c.f(qunit(c, a.self), "factors"), c.f(a.other, "factors"))), "different-dimension-or-no-path"
 
     def ensures(self, c, a, r):
         from pyvc.verify import Args
@@ -312,6 +313,7 @@ class QUnprefixed(Contract):
         yield "unit-unprefixed", c.f(ru, "prefix") == IdentityPrefix.ref
         yield "unit-factors", c.f(ru, "factors") == o.f(su, "factors")
         yield "unit-dimension", pointwise(c, VObj("Dimension", c.f(ru, "dimension")), lambda i: dexp(o, VObj("Dimension", o.f(su, "dimension")), i))
+        yield "unit-dimension-identical", c.f(ru, "dimension") == o.f(su, "dimension")
         yield "magnitude", mval(c, r) == mval(o, a.self) * pval_z(o, o.f(su, "prefix"))
         yield "value-preserved", qval(c, r) == qval(o, a.self)
         for t in ("Unit._known", "Prefix._known", "Dimension._known"):
@@ -322,7 +324,6 @@ class _QAddSub(Contract):
     props = ("C03", "C06")
     inv = ("I_D", "I_P", "I_U")
     modifies = _UnitBin.modifies + ("new:Quantity",)
-    may_raise = ("ConversionNotFound",)
     types = {"other": [T_QTY, T_UNIT, ("int",), ("other",)]}
     sign = 1
 
@@ -336,7 +337,8 @@ class _QAddSub(Contract):
 
     def raises(self, c, a):
         if isinstance(a.other, VObj) and a.other.cls == "Quantity":
-            yield "ConversionNotFound", c.f(qunit(c, a.self), "dimension") != c.f(qunit(c, a.other), "dimension"), "different-dimension"
+            yield "ConversionNotFound", z3.Or(c.f(qunit(c, a.self), "dimension") != c.f(qunit(c, a.other), "dimension"),
+                                              noconv(c.f(qunit(c, a.other), "factors"), c.f(qunit(c, a.self), "factors"))), "different-dimension-or-no-path"
 
     def ensures(self, c, a, r):
         o = c.old
@@ -390,13 +392,16 @@ class _QCompare(Contract):
             yield "not-implemented", z3.BoolVal(isinstance(r, VNotImpl))
             return
         same_dim = o.f(qunit(o, a.self), "dimension") == o.f(qunit(o, a.other), "dimension")
+        F1, F2 = o.f(qunit(o, a.self), "factors"), o.f(qunit(o, a.other), "factors")
+        gives_up = z3.Or(z3.Not(same_dim), z3.And(F1 != F2, noconv(F1, F2)))
         if isinstance(r, VNotImpl):
-            # NotImplemented only for another dimension or for units that differ after stripping prefixes
-            yield "notimplemented-justified", z3.Or(z3.Not(same_dim), o.f(qunit(o, a.self), "factors") != o.f(qunit(o, a.other), "factors"))
+            # NotImplemented exactly for another dimension or when no conversion from self's unit to other's exists
+            yield "notimplemented-exactly-when", gives_up
             return
         if not isinstance(r, VBool):
             yield "returns-bool-or-notimplemented", z3.BoolVal(False)
             return
+        yield "bool-exactly-when", z3.Not(gives_up)
         yield "same-dimension", same_dim
         x, y = qval(o, a.self), qval(o, a.other)
         yield "physical-value", z3.Implies(both_offset_free(o, o.f(a.self, "unit"), o.f(a.other, "unit")),
@@ -417,3 +422,40 @@ class QEq(_QCompare):
 class QLt(_QCompare):
     qual = "measured.Quantity.__lt__"
     op = "lt"
+
+
+@contract
+class QRoot(Contract):
+    """Quantity.root: root of the unit, magnitude ** (1/degree) (reals, A4)"""
+    qual = "measured.Quantity.root"
+    props = ("C03", "C14")
+    inv = ("I_D", "I_P", "I_U")
+    modifies = _UnitBin.modifies + ("new:Quantity",)
+    types = {"degree": [("int",)]}
+    ret = T_QTY
+
+    def requires(self, c, a):
+        yield "wf-self", wf_qty(c, a.self)
+        yield "float-magnitude", mkind(c, a.self) != K_DEC
+
+    def raises(self, c, a):
+        from .c_unit import UnitRoot
+        from pyvc.verify import Args
+        for exc, when, label in CONTRACTS_UNIT_ROOT.raises(c, Args({"self": qunit(c, a.self), "degree": a.degree})):
+            yield exc, when, label
+
+    def ensures(self, c, a, r):
+        o = c.old
+        n = a.degree.z
+        yield "fresh-quantity", z3.And(c.alive(r), z3.Not(o.alive(r)))
+        yield "degree-zero", z3.Implies(n == 0, z3.And(c.f(r, "unit") == One.ref, mval(c, r) == 1))
+        yield "dimension", z3.Implies(n != 0, pointwise_rel(c, qdim(c, r), lambda i, e: e * n == dexp(o, qdim(o, a.self), i)))
+        yield "magnitude", z3.Implies(n != 0, mval(c, r) == rpowr(mval(o, a.self), 1 / z3.ToReal(n)))
+        yield "unit-is-root", z3.Implies(n != 0, z3.And(live(c, qunit(c, r)),
+                                                      z3.ForAll([z3.Const("b!qr", Ref("Unit"))], z3.Implies(z3.Const("b!qr", Ref("Unit")) != One.ref,
+                                                      facv(c, qunit(c, r), z3.Const("b!qr", Ref("Unit"))) * n == facv(o, qunit(o, a.self), z3.Const("b!qr", Ref("Unit")))))))
+
+
+from .c_unit import CONTRACTS as _UC  # noqa: E402
+
+CONTRACTS_UNIT_ROOT = _UC["measured.Unit.root"]
